@@ -526,7 +526,9 @@ def handleIO (op : String) (args : List String) (impl : Option (List String)) : 
       let mut t : Copy.Tgt := ⟨tb, valid0⟩
       let mut rets := ""
       let mut same := ""
-      for sp in srcs.splitOn "," do
+      for sp0 in srcs.splitOn "," do
+        -- `<path>@<history>`: marks / validations on the SOURCE context before the copy; they play no part in the model of zck_copy_chunks
+        let sp := (sp0.splitOn "@").headD sp0
         let sb ← readFile sp
         match Header.openFile Sha.zckHash sb with
         | .ok sh =>
